@@ -87,6 +87,7 @@ class RegexVM:
         stack_limit: int = DEFAULT_STACK_LIMIT,
         poll_interval: int = DEFAULT_POLL_INTERVAL,
         step_limit: int = DEFAULT_STEP_LIMIT,
+        poll_state: Optional[List[int]] = None,
     ):
         """
         Initialize regex VM.
@@ -106,7 +107,9 @@ class RegexVM:
         self.poll_callback = poll_callback
         self.stack_limit = stack_limit
         self.poll_interval = poll_interval
-        self._steps_since_poll = 0
+        # Steps since the last deadline poll, shared by every matcher created
+        # for one RegExp object (string methods create one matcher per match)
+        self._poll_state = poll_state if poll_state is not None else [0]
         self.step_limit = step_limit
 
         self.ignorecase = "i" in flags
@@ -199,9 +202,9 @@ class RegexVM:
             # The poll cadence runs across match attempts: a search that makes
             # thousands of short attempts (split, global replace on a long
             # subject) must still look at the deadline every poll_interval steps
-            self._steps_since_poll += 1
-            if self._steps_since_poll >= self.poll_interval:
-                self._steps_since_poll = 0
+            self._poll_state[0] += 1
+            if self._poll_state[0] >= self.poll_interval:
+                self._poll_state[0] = 0
                 if self.poll_callback and self.poll_callback():
                     raise RegexTimeoutError("Regex execution timed out")
 
